@@ -30,6 +30,7 @@ class _Book(PyModel):
         self.sheetnames = list(sheets)
         self._sheets = sheets
         self.defined_names = names
+        self.worksheets = list(sheets.values())
 
     def __getitem__(self, name):
         return self._sheets[name]
@@ -38,6 +39,7 @@ class _Book(PyModel):
 class _Sheet(PyModel):
     def __init__(self, cells):
         self._cells = cells
+        self.defined_names = {}
 
 
 def _ocell(coord, dtype, value, cvalue=None):
@@ -129,20 +131,30 @@ def rule_2(ctx):
         if isinstance(out.value, dict) and 'a' in out.value:
             ctx.expect(out.value['a'] == 'Data!$A$1', rd, f'name -> target text when {ignore} is ignored', 'the target text of a defined name is altered')
     ctx.note('ignore_hidden is accepted but unused by both readers: outside the statement (allow-listed)')
-    mm = ctx.mod('model')
-    pa = mm.func('ModelCompiler.parse_archive')
-    pp = func_params(pa)
-    for attr in ('read_cells', 'read_defined_names'):
-        calls = [c for c in flow.calls_in(pa) if isinstance(c.func, ast.Attribute) and c.func.attr == attr]
-        ok = len(calls) == 1 and ((calls[0].args and isinstance(calls[0].args[0], ast.Name) and calls[0].args[0].id == pp[2]) or any(
-            k.arg == 'ignore_sheets' and isinstance(k.value, ast.Name) and k.value.id == pp[2] for k in calls[0].keywords))
-        ctx.expect(ok, pa, f'parse_archive passes ignore_sheets to {attr}', f'{attr} is not called with the caller\'s ignore list')
-    ra = mm.func('ModelCompiler.read_and_parse_archive')
-    calls = [c for c in flow.calls_in(ra) if isinstance(c.func, ast.Attribute) and c.func.attr == 'parse_archive']
-    ok = len(calls) == 1 and (any(k.arg == 'ignore_sheets' and isinstance(k.value, ast.Name) and k.value.id == 'ignore_sheets'
-                                  for k in calls[0].keywords) or len(calls[0].args) > 1)
-    ctx.expect(ok, ra, 'read_and_parse_archive forwards ignore_sheets', 'ignore_sheets is not forwarded to parse_archive')
-    ctx.floor(8, 'ignore list plumbing')
+    # end to end: a workbook loaded with an ignore list holds no cell, range or name of the ignored sheets and evaluates the rest
+    from . import workbook as W
+    from . import scenarios as S
+    anchor = ctx.mod('model').func('ModelCompiler.read_and_parse_archive')
+    sheets = {'Data': {'A1': 2, 'A2': 3, 'B1': '=SUM(A1:A2)', 'B2': '=keep*2'}, 'Ignored': {'A1': 5, 'B1': '=SUM(A1:A2)+drop'},
+              'My Sheet': {'C1': 7, 'C2': '=C1+Data!A1', 'C3': '=SUM(C1:C2)'}}
+    names = {'keep': 'Data!$A$2', 'drop': 'Ignored!$A$1', 'dropr': 'Ignored!$A$1:$A$2', 'mine': "'My Sheet'!$C$1", 'miner': "'My Sheet'!$C$1:$C$2"}
+    for ignore, gone, want in ((['Ignored'], ('Ignored!',), {'Data!B1': 5, 'Data!B2': 6, 'My Sheet!C2': 9, 'My Sheet!C3': 16, 'keep': 3, 'mine': 7}),
+                               (['Ignored', 'My Sheet'], ('Ignored!', 'My Sheet!'), {'Data!B1': 5, 'Data!B2': 6, 'keep': 3}),
+                               ([], (), {'Data!B1': 5, 'Ignored!B1': 10, 'My Sheet!C3': 16, 'drop': 5, 'mine': 7})):
+        wb = W.Workbook(ctx, sheets=sheets, names=names, ignore_sheets=ignore)
+        for field in ('cells', 'formulae', 'ranges'):
+            held = wb.model.f.get(field)
+            bad = sorted(k for k in held if k.startswith(gone)) if isinstance(held, dict) and gone else []
+            ctx.expect(isinstance(held, dict) and not bad, anchor, f'model.{field} when {ignore} is ignored',
+                       f'loaded with ignore_sheets={ignore} the model holds {bad[:4]} in {field}: ignored sheets contribute nothing')
+        held = wb.model.f.get('defined_names')
+        expect_names = {k for k, v in names.items() if not any(v.replace("'", '').startswith(g) for g in gone)}
+        ctx.expect(isinstance(held, dict) and set(held) == expect_names, anchor, f'defined names of the model when {ignore} is ignored',
+                   f'loaded with ignore_sheets={ignore} the model binds the names {sorted(held) if isinstance(held, dict) else held!r}, expected {sorted(expect_names)}')
+        for addr, w in want.items():
+            got = wb.value(addr)
+            ctx.expect(S.same(got, w), anchor, f'{addr} when {ignore} is ignored', f'loaded with ignore_sheets={ignore}, {addr} evaluates to {got!r}, expected {w!r}')
+    ctx.floor(30, 'ignore list: names read, models loaded')
 
 
 def rule_3(ctx):
@@ -349,7 +361,21 @@ def rule_7(ctx):
         n += 1
         ctx.expect(S.same(got, want), anchor, f'laid-out workbook: {addr}',
                    f'{addr} of the workbook {layout} with the name {lnames} evaluates to {got!r}, expected {want!r}')
-    ctx.floor(80, 'loaded-workbook cells')
+    # names scoped to one sheet next to workbook names of the same name: the workbook name means what the workbook binds it to
+    scoped = {'Rates': {'A2': 10, 'A3': 20, 'A4': 30, 'B1': 0.2, 'C1': '=Rate*1000', 'C2': '=SUM(Costs)'},
+              'Budget 2024': {'A2': 1, 'A3': 2, 'B1': 0.5, 'C1': '=B1*2'},
+              'Report': {'A1': 300, 'B1': '=A1*Rate', 'D1': '=Rate*100', 'E1': '=Only+1'}}
+    snames = {'Rate': 'Rates!$B$1', 'Costs': 'Rates!$A$2:$A$4', 'Only': 'Report!$A$1',
+              ('Budget 2024', 'Rate'): "'Budget 2024'!$B$1", ('Budget 2024', 'Costs'): "'Budget 2024'!$A$2:$A$3", ('Report', 'Rate'): 'Report!$A$1'}
+    swant = {'Report!B1': 60, 'Rates!C1': 200, 'Report!D1': 20, 'Report!E1': 301, 'Budget 2024!C1': 1, 'Rate': 0.2, 'Only': 300}
+    wb = W.Workbook(ctx, sheets=scoped, names=snames)
+    for addr, want in swant.items():
+        got = wb.value(addr)
+        n += 1
+        ctx.expect(S.same(got, want), anchor, f'workbook with sheet-scoped names: {addr}',
+                   f'{addr} of the workbook {scoped} with the names {snames} (tuple keys: names scoped to that sheet) evaluates to {got!r}, expected '
+                   f'{want!r}: a workbook-level name is bound to the cell the workbook binds it to')
+    ctx.floor(87, 'loaded-workbook cells')
 
 
 RULES = [
